@@ -123,6 +123,13 @@ def inject(scratch_repo, modules, known_ids, intree_macros=False, grammar_deviat
         import collections
         pre.append("a2lfile/src/verif_dev.rs (generated from /verif/reference/a2l_grammar_dsl.txt: %d documents %s, %d version-open documents)" % (len(devs), dict(collections.Counter(d["kind"] for d in devs)), len(gated)))
     open(os.path.join(src, "verif_dev.rs"), "w").write(devmod)
+    rbmod = ("use crate::specification::*;\npub(crate) const N_READBACK: u32 = 0;\npub(crate) fn readback_doc(_k: u32) -> &'static str { \"\" }\n"
+             "pub(crate) fn readback_check(_k: u32, _file: &A2lFile) -> bool { false }\npub(crate) const N_UNK: u32 = 0;\n"
+             "pub(crate) fn unk_doc(_k: u32) -> (&'static str, &'static str) { (\"\", \"\") }\n")
+    if grammar_deviations:
+        rbmod, rbinfo = dslgen.readback_and_unknown(open(os.path.join(C.VERIF, "reference", "a2l_grammar_dsl.txt")).read())
+        pre.append("a2lfile/src/verif_rb.rs (generated from the reference grammar: %s)" % json.dumps(rbinfo))
+    open(os.path.join(src, "verif_rb.rs"), "w").write(rbmod)
     if "VERIF_FP_STUB" not in fpmod:
         fpmod += "pub(crate) const VERIF_FP_STUB: bool = false;\n"
     open(os.path.join(src, "verif_every_element.txt"), "w").write(doc)
@@ -136,7 +143,7 @@ def inject(scratch_repo, modules, known_ids, intree_macros=False, grammar_deviat
     with open(os.path.join(src, "verif_rt.rs"), "w") as f:
         f.write(rt)
     with open(os.path.join(src, "lib.rs"), "a") as f:
-        f.write("\n#[cfg(verif)]\n#[allow(unused, clippy::all)]\npub(crate) mod verif_rt;\n#[cfg(verif)]\n#[allow(unused, clippy::all)]\npub(crate) mod verif_fp;\n#[cfg(verif)]\n#[allow(unused, clippy::all)]\npub(crate) mod verif_dev;\n")
+        f.write("\n#[cfg(verif)]\n#[allow(unused, clippy::all)]\npub(crate) mod verif_rt;\n#[cfg(verif)]\n#[allow(unused, clippy::all)]\npub(crate) mod verif_fp;\n#[cfg(verif)]\n#[allow(unused, clippy::all)]\npub(crate) mod verif_dev;\n#[cfg(verif)]\n#[allow(unused, clippy::all)]\npub(crate) mod verif_rb;\n")
     return pre + ["a2lfile/src/%s.rs += /verif/harness/%s.rs (cfg(verif))" % (m.replace("__", "/"), m) for m in modules] + [
         "a2lfile/src/verif_rt.rs (new, cfg(verif))"]
 
